@@ -119,10 +119,12 @@ def _r1(ctx, oa):
             b = oa.body if b.path == oa.body.path else f.nest_form(b, yields=False)
             covered |= set(getattr(b, 'inlined', []))
         units.append(b)
+    n_debug = 0
     for b in units:
         if b.is_closure and b.path in covered:
             continue
         cfg = CFG(b)
+        dbg = debug_only_blocks(b, cfg)
         tr = None
         for bi in sorted(cfg.reach):
             bb = b.blocks[bi]
@@ -137,6 +139,11 @@ def _r1(ctx, oa):
                 if any(p in n for p in PANIC_CALLS) and not n.endswith(NON_PANICKING):
                     site = ('call', n, t)
             if site is None:
+                continue
+            if bi in dbg:
+                # a debug_assert! and the arithmetic of its condition: the program's own self-check, compiled out when debug
+                # assertions are off; whether it can fire is not decided here (stated as an assumption)
+                n_debug += 1
                 continue
             sites += 1
             tr = tr or Tracer(b)
@@ -158,6 +165,10 @@ def _r1(ctx, oa):
                              'more panic-capable sites of kind %s than the %d recorded in the precondition table' % (sig, mx))
             else:
                 rep.fail('R1', '%s/%s' % (_short(b), sig), loc, why)
+    if n_debug:
+        rep.assume('%d panic-capable site(s) inside debug_assert!-family checks are NOT decided: they are the program\'s own '
+                   'self-checks and do not exist when debug assertions are off' % n_debug)
+    rep.extra['debug_only_sites'] = n_debug
     rep.extra['panic_sites'] = sites
     rep.extra['panic_sites_discharged_by_analysis'] = discharged
     rep.extra['generated_bodies_skipped'] = skipped_derived
@@ -342,6 +353,30 @@ def _returned_array_len(cb):
                 if m:
                     return int(m.group(1))
     return None
+
+
+def debug_only_blocks(b, cfg):
+    """Blocks that only run inside `debug_assert!`-family checks: everything between the `cfg!(debug_assertions)` test the
+    macro expands to and the point where control rejoins, plus any panic site whose macro backtrace names the macro."""
+    out = set()
+    for bi in cfg.reach:
+        t = b.blocks[bi]['term']
+        sp = t.get('span') or {}
+        exps = sp.get('exps') or []
+        if not any(e.startswith('debug_assert') for e in exps):
+            continue
+        if t['t'] == 'switch' and any(e.endswith('cfg') for e in exps):
+            # `if cfg!(debug_assertions) { .. }`: the false arm is an empty block that jumps to the join point
+            arms = dict((v, x) for v, x in t['arms'])
+            skip = arms.get('0')
+            inside = t['otherwise']
+            if skip is not None and inside != skip:
+                st = b.blocks[skip]
+                join = st['term']['target'] if st['term']['t'] == 'goto' and not st['stmts'] else skip
+                out |= cfg.reachable_from([inside], avoid={join, skip})
+        elif t['t'] == 'call':
+            out.add(bi)
+    return out
 
 
 def _closure_sites(ctx, path):
